@@ -16,7 +16,8 @@ using namespace vt;
 // d_nan: the map reports a NaN density for one channel (the weight is NaN; the other channel's density stays finite)
 // d_nan_dis: the NaN density belongs to a *disabled* channel (weight 0): 0 x NaN is still NaN, the point has no usable weight
 // proj_big: the value handed to the distributions is finite (max / 1.5), its product with a point weight of two or more is not
-enum poison { none = 0, f_nan, f_pinf, f_ninf, proj_nan, proj_inf, w_inf, d_nan, d_nan_dis, proj_big };
+// f_wide: the integrand computes in (and returns) long double; its value is finite there and beyond the range of T
+enum poison { none = 0, f_nan, f_pinf, f_ninf, proj_nan, proj_inf, w_inf, d_nan, d_nan_dis, proj_big, f_wide };
 
 struct plan
 {
@@ -40,12 +41,24 @@ template <typename T> static T poisoned_value(plan& p, T clean, bool can_winf)
         if (p.lane_z) r = T();
         else { r = k == f_nan ? std::numeric_limits<T>::quiet_NaN() : (k == f_pinf ? inf : -inf); ++p.poisoned; }
     }
+    else if (k == f_wide)
+    {
+        if (p.lane_z) r = T();
+        else ++p.poisoned;   // (the caller returns the wide value instead, see `widened`)
+    }
     else if ((k == w_inf || k == d_nan || k == d_nan_dis) && can_winf)
     {
         if (p.lane_z) r = T();
         else ++p.poisoned; // finite non-zero value times an infinite weight
     }
     return r;
+}
+
+// what an integrand that computes in long double returns (to be called before ++p.call)
+template <typename T> static long double widened(plan& p, T v)
+{
+    if (p.at() == f_wide && !p.lane_z) return (long double) std::numeric_limits<T>::max() * 4.0L;
+    return (long double) v;
 }
 
 template <typename T> static void fill(plan& p, hep::projector<T>& pr, T x, T clean, T weight = T(1))
@@ -102,8 +115,9 @@ template <typename T> static std::vector<lane_rec<T>> run_lane(int kind, plan p,
             T c = base_f(x);
             T v = poisoned_value(p, c, false);
             fill(p, pr, x, c);
+            long double const wide = widened(p, v);
             ++p.call;
-            return v;
+            return wide;
         };
         auto chk = hep::make_plain_chkpt<T>(eng);
         using C = decltype(chk);
@@ -130,8 +144,9 @@ template <typename T> static std::vector<lane_rec<T>> run_lane(int kind, plan p,
         auto fn0 = [&](hep::vegas_point<T> const& pt) {
             T c = base_f(pt.point()[0]) * (T(1) + pt.point()[1]);
             T v = poisoned_value(p, c, false);
+            long double const wide = widened(p, v);
             ++p.call;
-            return v;
+            return wide;
         };
         auto chk = hep::make_vegas_chkpt<T>(8, T(1.5), eng);
         using C = decltype(chk);
@@ -219,7 +234,8 @@ template <typename T> static void run_pair(int run, int kind, rng& g, bool dists
     for (std::size_t i = 0; i != len; ++i)
     {
         int k = none;
-        if (g.below((unsigned) density) == 0) k = 1 + (int) g.below(9);
+        if (g.below((unsigned) density) == 0) k = 1 + (int) g.below(10);
+        if (k == f_wide && !(kind == 0 || (kind == 1 && !dists))) k = f_pinf;
         if (k == proj_big && (!dists || kind != 1)) k = f_pinf;
         if (k == w_inf && kind != 2) k = f_ninf;
         if ((k == d_nan || k == d_nan_dis) && kind != 2) k = f_nan;
